@@ -521,6 +521,11 @@ func (e *specEnv) selectField(base Val, name string) Val {
 			isPtr = true
 		}
 	}
+	if _, isMap := cur.Ty.Underlying().(*types.Map); isMap && tr.pure == 0 && !strings.Contains(cur.T, "q_") {
+		// type invariant of a map-typed field read in a specification (no bound variable involved): the
+		// reference, if not nil, is a map of the field's type (see wf)
+		tr.raw("(assert " + tr.wf(cur) + ")")
+	}
 	return cur
 }
 
